@@ -5,6 +5,7 @@ package main
 // recording a Finding with a replayable request when the real code breaks the property.
 
 import (
+	"encoding/json"
 	"unsafe"
 	"fmt"
 	"reflect"
@@ -1194,6 +1195,55 @@ func fragHidden(g *Gen, n int, o *Out) {
 		o.count("pair:" + norm(r1))
 		if r1 != r2 {
 			o.finding(Finding{Property: "C08", Kind: "failing-input", What: "data differing only in hidden fields give " + r1 + " vs " + r2, Request: lastReq(o), Detail: text})
+		}
+		// literals spelled like the PRINTED form of a struct (fmt's %v / %+v, JSON): a comparison that goes through
+		// formatting would see hidden fields
+		if g.r.Intn(4) == 0 {
+			cands := []PathInfo{{Parts: nil, Val: v1}}
+			cands = append(cands, paths...)
+			for tries, doneP := 0, 0; tries < 30 && doneP < 3; tries++ {
+				p := cands[g.r.Intn(len(cands))]
+				sv := unwrapIP(p.Val)
+				if !sv.IsValid() || sv.Kind() != reflect.Struct || !sv.CanInterface() {
+					continue
+				}
+				doneP++
+				js, _ := json.Marshal(sv.Interface())
+				for _, lit := range []string{fmt.Sprint(sv.Interface()), fmt.Sprintf("%+v", sv.Interface()), string(js), fmt.Sprintf("%v", []interface{}{sv.Interface()})} {
+					if !canBacktick(lit) {
+						continue
+					}
+					var es []GExpr
+					if len(p.Parts) > 0 {
+						es = append(es, GMatch{Path: p.Parts, Op: "eq", Raw: lit, LitStyle: 3}, GMatch{Path: p.Parts[:len(p.Parts)-1], Op: "in", Raw: lit, LitStyle: 3, Contains: g.r.Intn(2) == 0})
+					}
+					wrapd1, wrapd2 := map[string]interface{}{"L": []interface{}{d1}, "V": d1}, map[string]interface{}{"L": []interface{}{d2}, "V": d2}
+					for _, e := range es {
+						ft, _, okf := g.renderTop(e)
+						if !okf {
+							continue
+						}
+						f1, f2 := evalText(o, opts, ft, d1), evalText(o, opts, ft, d2)
+						o.count("printed-form:" + norm(f1))
+						if f1 != f2 {
+							o.finding(Finding{Property: "C08", Kind: "failing-input", What: "data differing only in hidden fields give " + f1 + " vs " + f2 + " for a literal spelled like the printed form of the struct", Request: lastReq(o), Detail: ft})
+						}
+					}
+					if len(p.Parts) == 0 {
+						for _, e := range []GExpr{GMatch{Path: []string{"L"}, Op: "in", Raw: lit, LitStyle: 3, Contains: g.r.Intn(2) == 0}, GMatch{Path: []string{"V"}, Op: "eq", Raw: lit, LitStyle: 3}} {
+							ft, _, okf := g.renderTop(e)
+							if !okf {
+								continue
+							}
+							f1, f2 := evalText(o, opts, ft, wrapd1), evalText(o, opts, ft, wrapd2)
+							o.count("printed-form:" + norm(f1))
+							if f1 != f2 {
+								o.finding(Finding{Property: "C08", Kind: "failing-input", What: "data differing only in hidden fields give " + f1 + " vs " + f2 + " for a literal spelled like the printed form of the struct", Request: lastReq(o), Detail: ft})
+							}
+						}
+					}
+				}
+			}
 		}
 		// systematically: every field that is hidden under this tag name, below every struct of the
 		// datum, named by its Go name: the selector must fail (C08: "never resolves to its content") and
